@@ -163,6 +163,10 @@ def _consume_sync(part, op, out):
         out.append(part.get_text())
     elif k == 'media':
         out.append(part.get_media())
+    elif k == 'media2':
+        out.append(part.get_media())
+        out.append(part.get_media())
+        out.append(part.media)
     elif k == 'iter':          # sync twin of async iteration: line-wise reading
         n = 0
         while True:
@@ -238,6 +242,10 @@ async def _consume_async(part, op, out):
         out.append(await part.get_text())
     elif k == 'media':
         out.append(await part.get_media())
+    elif k == 'media2':
+        out.append(await part.get_media())
+        out.append(await part.get_media())
+        out.append(await part.media)
     elif k == 'iter':
         n = 0
         async for c in s:
@@ -454,6 +462,10 @@ MEDIA_PARTS = [   # (ctype, content, expected media) - the only parts on which g
     ('application/json', b'[\r\n-1,\r\n-2,\r\n "--"]', [-1, -2, '--']),
     ('application/json; charset=utf-8', b'"\xe2\x82\xac"', '€'),
     ('application/x-www-form-urlencoded', b'name=Jane&surname=Doe', {'name': 'Jane', 'surname': 'Doe'}),
+    # documents whose deserialized value is falsy / None (a cache must not confuse them with "not yet deserialized")
+    ('application/json', b'null', None), ('application/json', b'false', False), ('application/json', b'0', 0),
+    ('application/json', b'""', ''), ('application/json', b'[]', []), ('application/json', b'{}', {}),
+    ('application/json', b' null\r\n', None), ('application/json', b'0.0', 0.0),
 ]
 MEDIA_EXPECT = {(c, b): m for c, b, m in MEDIA_PARTS}
 
@@ -463,7 +475,7 @@ def normalize_plan(parts, plan):
     out = []
     for i, p in enumerate(parts):
         op = tuple(plan[i]) if i < len(plan) else ('read_all',)
-        if op[0] == 'media' and (p.ctype, p.content) not in MEDIA_EXPECT:
+        if op[0] in ('media', 'media2') and (p.ctype, p.content) not in MEDIA_EXPECT:
             op = ('read_all',)
         out.append(op)
     return out
@@ -521,7 +533,7 @@ def judge_ops(p, op, outs, buf_limit, default_charset='utf-8'):
     """Compare what one consumption op returned with the encoded content. -> None | reason"""
     c = p.content
     k = op[0]
-    if any(not isinstance(o, (bytes, str, type(None), dict, list, int)) for o in outs):
+    if any(not isinstance(o, (bytes, str, type(None), dict, list, int, float)) for o in outs):
         return 'unexpected output types'
     if k in ('skip', 'exhaust'):
         return None if not outs else 'unexpected output'
@@ -590,7 +602,10 @@ def judge_ops(p, op, outs, buf_limit, default_charset='utf-8'):
             return 'get_text returned something for a part that cannot be decoded'
         return None if outs == [None] else 'get_text on a non-text part is not None'
     if k == 'media':
-        return None if outs == [MEDIA_EXPECT[(p.ctype, p.content)]] else 'get_media != expected document'
+        return None if repr(outs) == repr([MEDIA_EXPECT[(p.ctype, p.content)]]) else 'get_media != expected document'
+    if k == 'media2':
+        return None if repr(outs) == repr([MEDIA_EXPECT[(p.ctype, p.content)]] * 3) else \
+            'repeated get_media()/.media != expected document (three times)'
     return 'unknown op'
 
 
@@ -659,6 +674,15 @@ def judge_valid(rec, case, stack, o, wit):
     if fail is None:
         if case['limits']:
             rec.count('mon.limit.pass')
+        if (_is_mpe(o.exc) and o.status == 400 and records and records[-1]['meta'] is None and len(records) <= len(parts) and
+                M.ext_undecodable(parts[len(records) - 1])):
+            # filename* whose octets are not valid in its declared charset: refusing the part is admissible (the other
+            # admissible outcome, reporting the plain filename= fallback, is what M.expected() asks for below)
+            rec.count('mon.ext_bad.400')
+            bad = check_records(rec, parts, plan, lim, records, len(records) - 1, stack)
+            if bad:
+                return report(rec, bad[0], dict(wit, detail=bad[1]), bad[2])
+            return None
         if o.exc is not None or o.status != 200 or not o.completed:
             return report(rec, 'valid-form-rejected', wit)
         if len(records) != len(parts):
@@ -918,6 +942,10 @@ EXT_SPECIALS = "!#$&+-.^_`|~"
 EXT_TEXTS = [t for c in EXT_SPECIALS for t in (c + 'a', 'a' + c + 'b', 'a' + c)] + [
     EXT_SPECIALS, 'a' + EXT_SPECIALS + 'z.txt', '100% sure?.txt', "it's *.txt", 'a;b,c="d" e=f.txt', '€&£#$', 'r&d/q+a\\x|y.txt',
     '%41', '%', "'", "''x", 'x']
+EXT_RAWS = ["UTF-8''%E2%28%AC", "UTF-8''%E2%82", "UTF-8''a%FFb", "utf-8'en'%C0%AF", "UTF-8''%ED%A0%80", "UTF-8''%F8%88%80%80%80",
+            "us-ascii''%A3", "ascii'en'caf%E9", "x-unknown''abc", "x-unknown''a%20b", "utf-16''%00", "utf-16le''a", "cp1252''%81",
+            "shift_jis''%81", "utf-8''%e2%82%ac", "iso-8859-1''%A3%20rates", "us-ascii''plain.txt", "utf-16''%FF%FEh%00",
+            "cp1252'de'%80uro"]
 CTE_VALUES = ['binary', 'Binary', 'BINARY', 'bInArY', '8bit', '8BIT', '7bit', '7Bit']
 CTYPES = [None, 'text/plain', 'text/plain; charset=utf-8', 'text/plain; charset=latin-1', 'application/json',
           'application/octet-stream', 'image/png', 'application/x-www-form-urlencoded']
@@ -993,6 +1021,8 @@ def phase_consumption(rec):
                     if idx % rec.nshards != rec.shard:
                         continue
                     k = idx // rec.nshards
+                    if rec.tier == 'quick' and (k + (ics is None)) % 2:
+                        continue          # quick: each (content, op) at one of the two buffer sizes, alternating
                     tr = (None, 1, 7, 97)[k % 4]
                     first = Part('first', c, ctype='text/plain; charset=latin-1')
                     do_case(rec, make_case(b, [first, tail], [op, ('read_all',)], transport=tr, ics=ics, tag='B'))
@@ -1047,6 +1077,19 @@ def phase_meta(rec):
                 p = Part('up', b'v', filename=plain, ext=(charset, ('', 'en', 'de-CH')[(k // 3) % 3], text), style=st)
                 do_case(rec, make_case(b'ab', [p, Part('other', b'w')], [('data',), ('read_all',)], tag='MX'))
                 rec.count('cls.ext_value.' + enc)
+    # filename* ext-values given literally: octets invalid in the declared charset, truncated sequences, unknown charsets
+    # (with and without escapes) - and decodable controls
+    for raw in EXT_RAWS:
+        for fb in (None, 'fb.txt'):
+            for pos in (0, 1):
+                idx += 1
+                if idx % rec.nshards != rec.shard:
+                    continue
+                k = idx // rec.nshards
+                p = Part('up', b'v', filename=fb, style={'ext_raw': raw, 'ext_first': bool(k % 2), 'sep': ('; ', ';')[(k // 2) % 2]})
+                parts = [p, Part('other', b'w')] if pos == 0 else [Part('first', b'u', filename='ok.txt'), p]
+                do_case(rec, make_case(b'ab', parts, [('data',), ('read_all',)], tag='MB'))
+                rec.count('cls.ext_raw.' + M.model_ext(raw)[0])
     # Content-Transfer-Encoding: identity encodings in every spelling, on the first / middle / last part
     for cte in CTE_VALUES:
         for pos in (0, 1, 2):
@@ -1068,8 +1111,10 @@ def phase_meta(rec):
             continue
         for ics in (None, 96):
             for tr in (None, 1, 5):
-                p = Part('doc', content, ctype=ct)
-                do_case(rec, make_case(B35, [p, Part('t', b'x')], [('media',), ('text',)], transport=tr, ics=ics, tag='M'))
+                for op in (('media',), ('media2',)):
+                    p = Part('doc', content, ctype=ct)
+                    do_case(rec, make_case(B35, [p, Part('t', b'x'), Part('doc2', content, ctype=ct)],
+                                           [op, ('text',), ('media2',)], transport=tr, ics=ics, tag='M'))
     rec.count('phase.M.done')
 
 
@@ -1381,7 +1426,7 @@ def phase_corrupt(rec):
     idx = 0
     for bi, (b, parts, pre, epi, fcrlf) in enumerate(corruption_bases(rec)):
         body, _lay = M.encode_form(parts, b, pre, epi, fcrlf)
-        bytes_set = (EDIT_BYTES[:6] if rec.tier == 'quick' else EDIT_BYTES) + [b[0]]
+        bytes_set = (EDIT_BYTES[:5] if rec.tier == 'quick' else EDIT_BYTES) + [b[0]]
         for pos in range(len(body) + 1):
             edits = [('ins', pos, x) for x in bytes_set]
             if pos < len(body):
@@ -1516,7 +1561,7 @@ def rand_op(rng, p, b):
     if r < 0.80:
         return ('text',)
     if r < 0.88:
-        return ('media',)
+        return (rng.choice(['media', 'media2']),)
     if r < 0.94:
         return ('iter',)
     return (rng.choice(['pipe', 'exhaust']),)
@@ -1663,10 +1708,10 @@ def floors(rec):
         ('cls.boundary_len.1', 100), ('cls.boundary_len.70', 100), ('cls.preamble', 100), ('cls.epilogue', 100),
         ('cls.no_final_crlf', 100), ('cls.parts.0', 8), ('cls.empty_content', 50), ('cls.content_delim_prefix', 500),
         ('cls.transport.1byte', 200), ('cls.transport.chunked', 500), ('cls.ics.small', 1000), ('cls.ics.default', 1000),
-        ('cls.body_spans_buffers.wsgi', 500), ('cls.body_spans_buffers.asgi', 200), ('cls.ext_filename', 100), ('cls.quoted_pair', 100), ('cls.cte.binary', 15), ('cls.cte.other', 100), ('mon.cte.weak', 200), ('cls.ext_value.attr', 40), ('cls.ext_value.all', 40), ('cls.ext_value.lower', 40), ('cls.ext_value.full', 40),
+        ('cls.body_spans_buffers.wsgi', 500), ('cls.body_spans_buffers.asgi', 200), ('cls.ext_filename', 100), ('cls.quoted_pair', 100), ('cls.ext_raw.bad', 40), ('cls.ext_raw.ok', 15), ('cls.cte.binary', 15), ('cls.cte.other', 100), ('mon.cte.weak', 200), ('cls.ext_value.attr', 40), ('cls.ext_value.all', 40), ('cls.ext_value.lower', 40), ('cls.ext_value.full', 40),
         ('cls.edit.sub', 300), ('cls.edit.del', 50), ('cls.edit.ins', 300), ('cls.edit.trunc', 50),
         ('mon.op.read', 200), ('mon.op.read_rest', 100), ('mon.op.read_all', 500), ('mon.op.loop', 100),
-        ('mon.op.until', 100), ('mon.op.until_n', 50), ('mon.op.mix', 50), ('mon.op.data', 300), ('mon.op.text', 50), ('mon.op.media', 20), ('mon.op.iter', 20),
+        ('mon.op.until', 100), ('mon.op.until_n', 50), ('mon.op.mix', 50), ('mon.op.data', 300), ('mon.op.text', 50), ('mon.op.media', 20), ('mon.op.media2', 20), ('mon.op.iter', 20),
         ('mon.op.skip', 200), ('mon.op.data_catch', 20), ('mon.op.pipe', 10),
         ('random.valid', 40 if q else 400), ('random.corrupt', 40 if q else 400), ('mon.boundary_param', 6),
         ('phase.A.done', rec.nshards), ('phase.B.done', rec.nshards), ('phase.M.done', rec.nshards),
